@@ -36,7 +36,8 @@ package promise
 //
 //@ func NewPromise
 //@   props C11
-//@   opt frame = skip
+//@   inline
+//@   modifies alloc, ghost:isprom, ghost:pof
 //@   ghost exit: isprom(result) := true
 //@   ghost exit: pof(result.done) := result
 //@   ensures fresh: result != nil && !old(allocated(result)) && isprom(result) && !closed(result.done) && !abool(result.isDone) && pwin(result) == nil
@@ -64,6 +65,7 @@ package promise
 //@   opt frame = skip
 //@   ghost atomic 1: pwin(p) := ite(ret, pwin(p), me)
 //@   ghost close 1: pwin(p) := nil
+//@   requires reserved: oncep(p) != nil ==> ((cbres(p) == 1 && val == cbval(p) && err == nil) || (cbres(p) == 2 && err != nil && cast(oncep(p), Once).prom != p)) && runner(p) == nil
 //@   ensures winner: result ==> closed(p.done) && cellany(p.result) == val && p.err == err
 //@   ensures loser: !result ==> !written(p.result) && !written(p.err)
 //
@@ -190,3 +192,71 @@ package promise
 //@ closure (*PromiseContainer).AwaitWithCancelCh$1
 //@   ghost exit: curat(prom) := now()
 //@   assert exit: prom == p.promise && waitCh != nil && waitCh == p.bcast.ch
+//
+// Once is a monitor: mtx guards prom; cb is immutable. Ghost history:
+//   oncep(p)   the Once that created promise p (set once)
+//   runner(p)  the goroutine that is running cb for p (owned: handed to the goroutine at the go
+//              statement, given up when cb returns)
+//   cbres(p)   0 while cb has not returned for p, 1 after it returned without error, 2 with an error
+//   cbval(p)   the value cb returned for p (fixed once cbres(p) != 0: TV)
+// R1  whoever holds runner(p) is the only one who can record cb's outcome for p
+// R2  a call in flight for p means p is the current promise: two calls of one Once are never in flight
+//     at the same time (both would be the current promise)
+// R3  the published result of a Once promise is cb's outcome for it
+// R4  a failed Once promise has been cleared before it was failed (a waiter that sees the failure finds
+//     a different promise, or starts a new call: the retry loop makes progress)
+// TO  prom only changes from nil to a new promise (Resolve) or from a promise whose call failed to nil:
+//     after a success it never changes again, so cb is never called again
+// TF  a new value of prom is a promise allocated after the previous state
+//
+//@ ghostmap oncep: ref -> ref once
+//@ ghostmap runner: ref -> ref owned
+//@ ghostmap cbres: ref -> int once
+//@ ghostmap cbval: ref -> any shared
+//
+//@ object Once
+//@   props C16 C13
+//@   lock mtx
+//@   guarded prom
+//@   immutable cb
+//@   inv O5: this.prom != nil ==> isprom(this.prom) && oncep(this.prom) == this
+//@   trans TO: this.prom != old(this.prom) ==> (old(this.prom) == nil || (this.prom == nil && cbres(old(this.prom)) == 2))
+//
+//@ ginv R1: forall p: ref {runner(p)} :: runner(p) != nil ==> cbres(p) == 0 && oncep(p) != nil && p != nil
+//@ ginv R2: forall p: ref {runner(p)} :: runner(p) != nil ==> cast(oncep(p), Once).prom == p
+//@ ginv R3: forall p: *Promise {oncep(p)} :: oncep(p) != nil && isprom(p) && closed(p.done) ==> (cbres(p) == 1 && cellany(p.result) == cbval(p) && p.err == nil) || (cbres(p) == 2 && p.err != nil)
+//@ ginv R4: forall p: *Promise {oncep(p)} :: oncep(p) != nil && isprom(p) && closed(p.done) && p.err != nil ==> cast(oncep(p), Once).prom != p
+//@ gtrans TV: forall p: ref {cbval(p)} :: old(cbres(p)) != 0 ==> cbval(p) == old(cbval(p))
+//@ gtrans TF: forall o: *Once {o.prom} :: o.prom != old(o.prom) && o.prom != nil ==> fresh(o.prom)
+//
+//@ func NewOnce
+//@   props C16
+//@   opt frame = skip
+//@   opt constructor = Once
+//@   ensures result != nil && result.prom == nil && result.cb == cb
+//
+// Resolve: the go statement is reached only with prom == nil, i.e. (R2) with no call in flight; nil is
+// returned only with the value of a successful call, an error other than context.Canceled only after a
+// failed call, context.Canceled only when the caller's own context is cancelled; the loop goes round only
+// when ctx is cancelled or the awaited promise has failed (R4: it is no longer the current one).
+//
+//@ func (*Once).Resolve
+//@   props C16 C13
+//@   opt frame = skip
+//@   requires o != nil && ctx != nil && o.cb != nil
+//@   ghost go 1: oncep(prom) := o
+//@   ghost go 1: runner(prom) := child
+//@   assert go 1: csold(o.prom) == nil && o.prom == prom
+//@   assert backedge 1: cancelled(ctx) || (closed(prom.done) && prom.err != nil)
+//@   ensures success: result1 == nil ==> exists p: ref :: oncep(p) == o && cbres(p) == 1 && result0 == cbval(p)
+//@   ensures failure: result1 != nil && result1 != context.Canceled ==> exists p: ref :: oncep(p) == o && cbres(p) == 2
+//@   ensures canceled: result1 == context.Canceled ==> cancelled(ctx)
+//
+//@ func (*Once).Resolve$1
+//@   props C16 C13
+//@   opt frame = skip
+//@   opt inherits = runner
+//@   requires o != nil && o.cb != nil && ctx != nil && isprom(prom) && oncep(prom) == o && runner(prom) == me
+//@   ghost callbackret 1: cbval(prom) := ret0
+//@   ghost callbackret 1: cbres(prom) := ite(ret1 == nil, 1, 2)
+//@   ghost callbackret 1: runner(prom) := nil
